@@ -88,6 +88,8 @@ pub struct Real {
     pub backend: BackendKind,
     pub force_version: Option<u8>,
     pub clock_violation: Option<String>,
+    /// message of the last panic caught in `exec`
+    pub last_panic: Option<String>,
 }
 
 /// the instant every new storage is pinned to right after its creation (2019-04-16)
@@ -106,7 +108,7 @@ fn ok_unit(r: std::io::Result<()>) -> String {
 
 impl Real {
     pub fn new() -> Real {
-        Real { comp: None, file: None, handles: BTreeMap::new(), maxbuf: None, clock_violation: None, backend: BackendKind::Mem, force_version: None }
+        Real { comp: None, file: None, handles: BTreeMap::new(), maxbuf: None, clock_violation: None, last_panic: None, backend: BackendKind::Mem, force_version: None }
     }
 
     pub fn image(&self) -> Vec<u8> {
@@ -116,7 +118,10 @@ impl Real {
     pub fn exec(&mut self, line: &str) -> String {
         match catch(|| self.exec_inner(line)) {
             Ok(s) => s,
-            Err(_) => "panic".into(),
+            Err(m) => {
+                self.last_panic = Some(m);
+                "panic".into()
+            }
         }
     }
 
